@@ -190,7 +190,15 @@ Definition sched_line (l : str) : Prop :=
   | _ => True
   end.
 
-Definition sched_thr (t : thr) : Prop := Forall sched_line (t_prog t).
+(* a scheduled thread is never parked inside a use-db (use-db lines are not scheduled
+   commands, so these park points are unreachable for such a thread) *)
+Definition sched_pc (p : pc) : Prop :=
+  match p with
+  | PcUseTok _ _ _ | PcPub _ _ _ _ | PcPubNotify _ _ _ _ => False
+  | _ => True
+  end.
+
+Definition sched_thr (t : thr) : Prop := Forall sched_line (t_prog t) /\ sched_pc (t_pc t).
 
 (* ---- the thread part: session id and program ------------------------------- *)
 Lemma finish_sid t r : t_sid (finish t r) = t_sid t.
@@ -258,11 +266,29 @@ Proof.
       auto using thr_le_finish, thr_le_complete, thr_le_park, thr_le_after_guard.
 Qed.
 
+Lemma thr_le_start_publish n t0 t dbn k : thr_le t0 t -> thr_le (snd (start_publish n t0 dbn k)) t.
+Proof.
+  intros H. unfold start_publish, tick. destruct (get_db n dbn); cbn [snd]; auto using thr_le_park.
+Qed.
+
+Lemma thr_le_use_inc n t0 t name user rq : thr_le t0 t -> thr_le (snd (use_inc n t0 name user rq)) t.
+Proof.
+  intros H. unfold use_inc. destruct (get_db _ name); cbn [snd];
+    auto using thr_le_start_publish, thr_le_finish.
+Qed.
+
+Lemma thr_le_after_publish n t0 t k : thr_le t0 t -> thr_le (snd (after_publish n t0 k)) t.
+Proof.
+  intros H. unfold after_publish. destruct k; [now apply thr_le_use_inc|].
+  destruct (replicate_request _ _ _ _). cbn [snd]. now apply thr_le_finish.
+Qed.
+
 Lemma release_thr n t : thr_le (snd (release n t)) t.
 Proof.
   unfold release. destruct (t_pc t) eqn:Hpc; try apply start_cmd_thr;
     repeat brk; cbn [snd];
-      auto using thr_le_finish, thr_le_complete, thr_le_park, thr_le_after_guard, thr_le_refl.
+      auto using thr_le_finish, thr_le_complete, thr_le_park, thr_le_after_guard, thr_le_refl,
+                 thr_le_start_publish, thr_le_use_inc, thr_le_after_publish.
   all: first [apply thr_le_complete | apply thr_le_park]; split; cbn [t_sid t_prog]; auto.
 Qed.
 
@@ -272,9 +298,70 @@ Proof. apply release_thr. Qed.
 Lemma Forall_tl {A} (P : A -> Prop) l x r : Forall P l -> l = x :: r -> Forall P r.
 Proof. intros H ->. now inversion H. Qed.
 
+(* ---- a scheduled thread never reaches a use-db park point ---------------------- *)
+Lemma finish_sched_pc t r : sched_pc (t_pc (finish t r)).
+Proof. destruct (finish_boundary t r) as [E|E]; rewrite E; exact I. Qed.
+
+Lemma complete_sched_pc n t rq s r : sched_pc (t_pc (snd (complete n t rq s r))).
+Proof. rewrite complete_snd. apply finish_sched_pc. Qed.
+
+Lemma after_guard_sched_pc n t rq dbn :
+  sched_pc (t_pc t) -> sched_pc (t_pc (snd (after_guard n t rq dbn))).
+Proof.
+  intros Hp. unfold after_guard, tick. destruct rq; cbn [snd park t_pc sched_pc]; auto.
+  - destruct (String.eqb _ _); [apply complete_sched_pc | exact I].
+  - destruct (is_primary n); [exact I | apply complete_sched_pc].
+Qed.
+
+Lemma start_cmd_sched_pc n t :
+  sched_pc (t_pc t) -> Forall sched_line (t_prog t) -> sched_pc (t_pc (snd (start_cmd n t))).
+Proof.
+  intros Hp Hl. unfold start_cmd. destruct (t_prog t) as [|line rest]; [exact I|].
+  inversion Hl as [|? ? H1 _]; subst. unfold sched_line in H1.
+  assert (H0 : sched_pc (t_pc (mkThr (t_sid t) rest (t_pc t) (t_replies t) (t_trace t) (t_hints t)))) by exact Hp.
+  revert H0. generalize (mkThr (t_sid t) rest (t_pc t) (t_replies t) (t_trace t) (t_hints t)). intros t0 H0.
+  destruct (parse_request (trim_char nl line)) as [rq| |]; try apply finish_sched_pc.
+  destruct (key_of rq) as [[key kind]|] eqn:Hk.
+  - destruct (perm_yields _ _ _); [exact I|].
+    destruct (guard_safe _ _ _ _); [now apply after_guard_sched_pc | apply complete_sched_pc].
+  - destruct rq; try discriminate H1; try discriminate Hk;
+      (destruct (guard_db _ _); [exact I | apply complete_sched_pc]).
+Qed.
+
+Lemma release_sched_pc n t : sched_thr t -> sched_pc (t_pc (snd (release n t))).
+Proof.
+  intros [Hl Hp]. unfold release. destruct (t_pc t) eqn:Hpc; try contradiction.
+  - apply start_cmd_sched_pc; auto. now rewrite Hpc.
+  - destruct (key_of rq) as [[key kind]|]; [|cbn [snd]; now rewrite Hpc].
+    destruct (guard_safe _ _ _ _); [|apply complete_sched_pc].
+    apply after_guard_sched_pc. now rewrite Hpc.
+  - destruct (get_db n dbn) as [d0|]; [|apply complete_sched_pc].
+    destruct (set_value d0 _) as [[d1 r] msgs].
+    destruct r; try apply complete_sched_pc; [exact I|].
+    destruct (d_strat d0); try apply complete_sched_pc.
+    destruct (N.ltb _ _); [|apply complete_sched_pc].
+    unfold tick. exact I.
+  - destruct rq; apply complete_sched_pc.
+  - destruct (get_db n dbn); [destruct (get_key_value_new _ _)|]; apply complete_sched_pc.
+  - destruct (get_db n dbn); [destruct (remove_value _ _) as [[? ?] ?]; exact I | apply complete_sched_pc].
+  - apply complete_sched_pc.
+  - destruct (get_db n dbn); [|apply complete_sched_pc].
+    destruct (tick n). destruct (inc_value _ _ _ _) as [[? r] ?].
+    destruct r; try apply complete_sched_pc. exact I.
+  - destruct (get_db n dbn); apply complete_sched_pc.
+  - destruct (get_db n dbn); apply complete_sched_pc.
+  - destruct (get_db n dbn); [|apply complete_sched_pc].
+    destruct (t_hints t); destruct (reorder _ _); try apply complete_sched_pc; exact I.
+  - destruct keys as [|k rest]; [apply complete_sched_pc|].
+    destruct rest; [apply complete_sched_pc | exact I].
+  - destruct (get_db n dbn); apply complete_sched_pc.
+  - cbn [snd]. now rewrite Hpc.
+Qed.
+
 Lemma release_sched n t : sched_thr t -> sched_thr (snd (release n t)).
 Proof.
-  unfold sched_thr. intros H. destruct (release_thr n t) as [_ [E | (l & E)]].
+  intros H. split; [|now apply release_sched_pc].
+  destruct H as [H _]. destruct (release_thr n t) as [_ [E | (l & E)]].
   - now rewrite E.
   - eapply Forall_tl; eauto.
 Qed.
@@ -352,7 +439,7 @@ Definition unchanged (n' n : node) : Prop := n_dbs n' = n_dbs n.
 
 Lemma start_cmd_dbs n t : sched_thr t -> n_dbs (fst (start_cmd n t)) = n_dbs n.
 Proof.
-  unfold sched_thr, start_cmd. intros Hs.
+  unfold sched_thr, start_cmd. intros [Hs _].
   destruct (t_prog t) as [|line rest] eqn:Hp; [reflexivity|].
   inversion Hs as [|? ? Hl _]; subst. unfold sched_line in Hl.
   generalize (mkThr (t_sid t) rest (t_pc t) (t_replies t) (t_trace t) (t_hints t)). intros t0.
@@ -446,6 +533,12 @@ Proof.
     + destruct rest; [apply dbs_complete | reflexivity].
   - (* PcKeys *)
     destruct (get_db n dbn) as [d|]; rewrite dbs_complete; reflexivity.
+  - (* PcUseTok: not a park point of a scheduled thread *)
+    destruct Hs as [_ Hp]. rewrite Hpc in Hp. destruct Hp.
+  - (* PcPub *)
+    destruct Hs as [_ Hp]. rewrite Hpc in Hp. destruct Hp.
+  - (* PcPubNotify *)
+    destruct Hs as [_ Hp]. rewrite Hpc in Hp. destruct Hp.
   - reflexivity.
 Qed.
 
@@ -1056,7 +1149,7 @@ Proof.
   intros Hnot.
   set (ts1 := list_update ts i _).
   assert (Hs1 : Forall sched_thr ts1).
-  { apply Forall_list_update; auto. unfold sched_thr. cbn [park t_prog].
+  { apply Forall_list_update; auto. split; [|exact I]. cbn [park t_prog].
     eapply (nth_error_Forall sched_thr); eauto. }
   pose proof (schedule_data (put_db n dbn d1) ts1 rest dbn Hs1) as Hsd.
   rewrite get_db_put, String.eqb_refl in Hsd. cbn [option_map] in Hsd.
@@ -1547,6 +1640,28 @@ Proof.
   intros H. apply after_guard_res in H. congruence.
 Qed.
 
+(* the use-db continuations never park at a write *)
+Lemma start_publish_not_write n t dbn k a b c d e g f :
+  t_pc t <> PcSetWrite a b c d e g f -> t_pc (snd (start_publish n t dbn k)) <> PcSetWrite a b c d e g f.
+Proof.
+  intros H. unfold start_publish, tick. destruct (get_db n dbn); cbn [snd park t_pc]; auto. discriminate.
+Qed.
+
+Lemma use_inc_not_write n t name user rq a b c d e g f :
+  t_pc t <> PcSetWrite a b c d e g f -> t_pc (snd (use_inc n t name user rq)) <> PcSetWrite a b c d e g f.
+Proof.
+  intros H. unfold use_inc. destruct (get_db _ name); cbn [snd].
+  - now apply start_publish_not_write.
+  - apply finish_not_write.
+Qed.
+
+Lemma after_publish_not_write n t k a b c d e g f :
+  t_pc t <> PcSetWrite a b c d e g f -> t_pc (snd (after_publish n t k)) <> PcSetWrite a b c d e g f.
+Proof.
+  intros H. unfold after_publish. destruct k; [now apply use_inc_not_write|].
+  destruct (replicate_request _ _ _ _). cbn [snd]. apply finish_not_write.
+Qed.
+
 (* where a resolving write comes from *)
 Lemma release_resolving n t a b c d e f :
   t_pc (snd (release n t)) = PcSetWrite a b c d e true f ->
@@ -1579,6 +1694,23 @@ Proof.
   - destruct keys as [|k rest]; [intros H; now apply complete_not_write in H|].
     destruct rest; [intros H; now apply complete_not_write in H|]. cbn [snd park t_pc]; discriminate.
   - destruct (get_db n dbn); intros H; now apply complete_not_write in H.
+  - (* PcUseTok *)
+    assert (Hnw : t_pc t <> PcSetWrite a b c d e true f) by (rewrite Hpc; discriminate).
+    destruct (get_db n name); [|intros H; now apply complete_not_write in H].
+    destruct (negb _); [intros H; now apply complete_not_write in H|].
+    destruct (s_db _) as [prev|]; [destruct (get_db n prev)|]; intros H; exfalso; revert H;
+      first [exact (start_publish_not_write _ _ _ _ _ _ _ _ _ _ _ Hnw)
+            | exact (use_inc_not_write _ _ _ _ _ _ _ _ _ _ _ _ Hnw)].
+  - (* PcPub *)
+    assert (Hnw : t_pc t <> PcSetWrite a b c d e true f) by (rewrite Hpc; discriminate).
+    destruct (get_db n dbn); [|intros H; exfalso; revert H; exact (after_publish_not_write _ _ _ _ _ _ _ _ _ _ Hnw)].
+    destruct (set_value _ _) as [[? ?] ?]. cbn [snd park t_pc]. discriminate.
+  - (* PcPubNotify *)
+    assert (Hnw : t_pc t <> PcSetWrite a b c d e true f) by (rewrite Hpc; discriminate).
+    destruct (get_db n dbn); [|intros H; exfalso; revert H; exact (after_publish_not_write _ _ _ _ _ _ _ _ _ _ Hnw)].
+    destruct (Z.eqb _ _); intros H; exfalso; revert H;
+      first [exact (start_publish_not_write _ _ _ _ _ _ _ _ _ _ _ Hnw)
+            | exact (after_publish_not_write _ _ _ _ _ _ _ _ _ _ Hnw)].
   - cbn [snd]. congruence.
 Qed.
 
@@ -1773,7 +1905,26 @@ Proof.
   - destruct (perm_yields _ _ _); [exact H1|].
     destruct (guard_safe _ _ _ _); [now apply after_guard_vok | apply complete_vok].
   - destruct rq; try (destruct (step n (t_sid t) line); apply finish_vok);
-      (destruct (guard_db _ _); [exact I | apply complete_vok]).
+      first [destruct (guard_db _ _); [exact I | apply complete_vok]
+            | destruct (get_db _ _); [exact I | apply complete_vok]].
+Qed.
+
+Lemma start_publish_vok n t dbn k : pc_vok (t_pc t) -> pc_vok (t_pc (snd (start_publish n t dbn k))).
+Proof.
+  intros H. unfold start_publish, tick. destruct (get_db n dbn); cbn [snd park t_pc]; auto. exact I.
+Qed.
+
+Lemma use_inc_vok n t name user rq : pc_vok (t_pc t) -> pc_vok (t_pc (snd (use_inc n t name user rq))).
+Proof.
+  intros H. unfold use_inc. destruct (get_db _ name); cbn [snd].
+  - now apply start_publish_vok.
+  - apply finish_vok.
+Qed.
+
+Lemma after_publish_vok n t k : pc_vok (t_pc t) -> pc_vok (t_pc (snd (after_publish n t k))).
+Proof.
+  intros H. unfold after_publish. destruct k; [now apply use_inc_vok|].
+  destruct (replicate_request _ _ _ _). cbn [snd]. apply finish_vok.
 Qed.
 
 Lemma release_pc_vok n t : node_vok n -> vers_thr t -> pc_vok (t_pc (snd (release n t))).
@@ -1803,6 +1954,20 @@ Proof.
   - destruct keys as [|k rest]; [apply complete_vok|].
     destruct rest; [apply complete_vok | exact I].
   - destruct (get_db n dbn); apply complete_vok.
+  - (* PcUseTok *)
+    assert (Hv : pc_vok (t_pc t)) by (rewrite Hpc; exact I).
+    destruct (get_db n name); [|apply complete_vok].
+    destruct (negb _); [apply complete_vok|].
+    destruct (s_db _) as [prev|]; [destruct (get_db n prev)|];
+      auto using start_publish_vok, use_inc_vok.
+  - (* PcPub *)
+    assert (Hv : pc_vok (t_pc t)) by (rewrite Hpc; exact I).
+    destruct (get_db n dbn); [|now apply after_publish_vok].
+    destruct (set_value _ _) as [[? ?] ?]. exact I.
+  - (* PcPubNotify *)
+    assert (Hv : pc_vok (t_pc t)) by (rewrite Hpc; exact I).
+    destruct (get_db n dbn); [|now apply after_publish_vok].
+    destruct (Z.eqb _ _); auto using start_publish_vok, after_publish_vok.
   - cbn [snd]. now rewrite Hpc.
 Qed.
 
@@ -1901,15 +2066,20 @@ Definition ex_ts : list thr :=
 
 Lemma sched_thr_dec_sound t :
   forallb (fun l => match parse_request (trim_char nl l) with
-                    | POk rq => sched_rq rq | _ => true end) (t_prog t) = true -> sched_thr t.
+                    | POk rq => sched_rq rq | _ => true end) (t_prog t) = true ->
+  sched_pc (t_pc t) -> sched_thr t.
 Proof.
-  unfold sched_thr. induction (t_prog t) as [|l r IH]; cbn [forallb]; intros H; constructor.
+  unfold sched_thr. intros H Hp. split; [|exact Hp]. clear Hp. revert H.
+  induction (t_prog t) as [|l r IH]; cbn [forallb]; intros H; constructor.
   - apply andb_true_iff in H. unfold sched_line. destruct (parse_request _); tauto.
   - apply IH. apply andb_true_iff in H. tauto.
 Qed.
 
 Example ex_ts_sched : Forall sched_thr ex_ts.
-Proof. repeat constructor; apply sched_thr_dec_sound; vm_compute; reflexivity. Qed.
+Proof.
+  constructor; [|constructor; [|constructor]];
+    (apply sched_thr_dec_sound; [vm_compute; reflexivity | exact I]).
+Qed.
 
 (* both compare-and-set writes carry version 0; whichever thread enters its write section
    first wins, the other gets the version error (here for both orders) *)
@@ -1929,11 +2099,23 @@ Example ex_two_cas :
      [RVersionError "k" 1 0 (mkV "x" 1 12 VNew 0 0) (mkCh "k" "y" 0 13 false) VNew; ROk; ROk]].
 Proof. vm_compute. repeat split. Qed.
 
-(* why programs are restricted to the scheduled commands: any other line is run in one go
-   by Node.step when the command starts, and may write data although the thread is at
-   PcCmd (data_op = None).  Here "use-db" rewrites the $connections key of d. *)
+(* why programs are restricted to the scheduled commands: any other line (use-db apart, which
+   Sched.v models with its own park points and which ConnSchedProofs.v treats) is run in one go
+   by Node.step when the command starts, and may write data although the thread is at PcCmd
+   (data_op = None).  Here "resolve" writes its $conflicts_ record and the key into d. *)
 Example unscheduled_line_changes_data :
-  let t := new_thread 1 ["use-db d tok"] [] in
+  let t := new_thread 1 ["resolve 7 d k 0 z"] [] in
   data_op ex_node t = None /\
   option_map d_map (get_db (fst (release ex_node t)) "d") <> option_map d_map (get_db ex_node "d").
 Proof. vm_compute. split; [reflexivity | discriminate]. Qed.
+
+(* use-db is a modelled command now: its first release only parks at the token check *)
+Example use_db_line_parks :
+  let t := new_thread 1 ["use-db d tok"] [] in
+  ~ sched_thr t /\
+  t_pc (snd (release ex_node t)) = PcUseTok "tok" "d" None /\
+  n_dbs (fst (release ex_node t)) = n_dbs ex_node.
+Proof.
+  cbn zeta. split; [|vm_compute; split; reflexivity].
+  intros [H _]. inversion H as [|? ? H1 _]; subst. vm_compute in H1. discriminate.
+Qed.
